@@ -185,7 +185,7 @@ def dvals(d):
 
 
 def dict_has(d, k):
-    return z3.Contains(dkeys(d), z3.Unit(k))
+    return DHAS(d, k)
 
 
 def dict_index(d, k):
@@ -194,7 +194,7 @@ def dict_index(d, k):
 
 def dict_get(d, k):
     """value stored under k (unspecified when absent)"""
-    return dvals(d)[dict_index(d, k)]
+    return DGET(d, k)
 
 
 def dict_set(d, k, v):
@@ -235,18 +235,48 @@ def truthy(v):
     if ty == "obj":
         return z3.BoolVal(True)
     if ty == "py":
-        return z3.If(Py.is_none(t), False,
-               z3.If(Py.is_bool(t), Py.b(t),
-               z3.If(Py.is_int(t), Py.i(t) != 0,
-               z3.If(Py.is_str(t), z3.Length(Py.s(t)) > 0,
-               z3.If(Py.is_bytes(t), z3.Length(Py.bs(t)) > 0,
-               z3.If(Py.is_list(t), z3.Length(Py.items(t)) > 0,
-               z3.If(Py.is_tuple(t), z3.Length(Py.titems(t)) > 0,
-               z3.If(Py.is_dict(t), z3.Length(Py.keys(t)) > 0,
-               z3.If(Py.is_set(t), z3.Length(Py.elems(t)) > 0,
-               z3.If(Py.is_float(t), z3.And(Py.fbits(t) != 0, Py.fbits(t) != 2 ** 63),
-                     True))))))))))
+        return TRUTHY(t)
     raise TypeError(ty)
+
+
+def _truthy_body(t):
+    return z3.If(Py.is_none(t), False,
+           z3.If(Py.is_bool(t), Py.b(t),
+           z3.If(Py.is_int(t), Py.i(t) != 0,
+           z3.If(Py.is_str(t), z3.Length(Py.s(t)) > 0,
+           z3.If(Py.is_bytes(t), z3.Length(Py.bs(t)) > 0,
+           z3.If(Py.is_list(t), z3.Length(Py.items(t)) > 0,
+           z3.If(Py.is_tuple(t), z3.Length(Py.titems(t)) > 0,
+           z3.If(Py.is_dict(t), z3.Length(Py.keys(t)) > 0,
+           z3.If(Py.is_set(t), z3.Length(Py.elems(t)) > 0,
+           z3.If(Py.is_float(t), z3.And(Py.fbits(t) != 0, Py.fbits(t) != 2 ** 63),
+                 True))))))))))
+
+
+# defined (non-recursive) helper functions: unfolded lazily by the solver, which keeps
+# VC terms small.  Exported to SMT-LIB as define-fun.
+_x = z3.Const("x!def", Py)
+TRUTHY = z3.RecFunction("py.truthy", Py, B)
+z3.RecAddDefinition(TRUTHY, [_x], _truthy_body(_x))
+
+_k = z3.Const("k!def", Py)
+DHAS = z3.RecFunction("py.has", Py, Py, B)
+z3.RecAddDefinition(DHAS, [_x, _k], z3.Contains(Py.keys(_x), z3.Unit(_k)))
+DGET = z3.RecFunction("py.get", Py, Py, Py)
+z3.RecAddDefinition(DGET, [_x, _k], Py.vals(_x)[z3.IndexOf(Py.keys(_x), z3.Unit(_k), z3.IntVal(0))])
+
+PYLEN = z3.RecFunction("py.len", Py, I)
+z3.RecAddDefinition(PYLEN, [_x],
+    z3.If(Py.is_str(_x), z3.Length(Py.s(_x)),
+    z3.If(Py.is_bytes(_x), z3.Length(Py.bs(_x)),
+    z3.If(Py.is_list(_x), z3.Length(Py.items(_x)),
+    z3.If(Py.is_tuple(_x), z3.Length(Py.titems(_x)),
+    z3.If(Py.is_dict(_x), z3.Length(Py.keys(_x)), z3.Length(Py.elems(_x))))))))
+
+PYITEMS = z3.RecFunction("py.items", Py, SeqPy)
+z3.RecAddDefinition(PYITEMS, [_x],
+    z3.If(Py.is_list(_x), Py.items(_x), z3.If(Py.is_tuple(_x), Py.titems(_x),
+    z3.If(Py.is_dict(_x), Py.keys(_x), Py.elems(_x)))))
 
 
 def fresh(name, ty, _n=[0]):
@@ -266,3 +296,28 @@ def kind_constraint(v):
     if v.ty == "obj":
         return Py.is_obj(v.t)
     return None
+
+
+def _has_nth(t, seen=None):
+    seen = set() if seen is None else seen
+    stack = [t]
+    while stack:
+        x = stack.pop()
+        i = x.get_id()
+        if i in seen:
+            continue
+        seen.add(i)
+        if z3.is_app(x):
+            if x.decl().kind() in (z3.Z3_OP_SEQ_NTH, z3.Z3_OP_SEQ_AT):
+                return True
+            stack.extend(x.children())
+    return False
+
+
+def simp(t):
+    """z3.simplify, except on terms containing Nth/At: the simplifier rewrites those into
+    its internal total/partial split (seq.nth_i / seq.nth_u), which makes terms that are
+    equal no longer syntactically equal and slows the sequence solver down."""
+    if _has_nth(t):
+        return t
+    return z3.simplify(t)
